@@ -378,6 +378,18 @@ class L2Gen:
             if "v1" not in self.vars:
                 self.vars.append("v1")
             self.features.add("var-names-later-table")
+        elif x < 0.34:
+            # a table whose number of rows VARIES with the iteration (0 in some iterations, also in the first): a tick
+            # table with one row per iteration and a count (tick.id - a) * (tick.id - b); over a chain of runs such a
+            # table is idle in some runs and gets its first id in a continued one
+            a, b = r.choice([1, 2, 3]), r.choice([1, 2, 3])
+            tid = ["attr", ["name", "n2"], "id"]
+            tick = {"object": "C", "nickname": "n2", "fields": [["f2", ["lit", 0]]]}
+            var = {"object": r.choice(["A", "B"]), "count": ["tmpl", [["expr", ["mul", ["sub", tid, ["int", a]], ["sub", tid, ["int", b]]]]]],
+                   "fields": [["f1", ["ref", "n2"]]]}
+            sts.insert(0, tick)
+            sts.insert(1, var)
+            self.features.add("count-varies-with-iteration")
         opts = [["o1", r.choice([1, 2, 3])]] + ([["count", r.choice([5, 9])]] if count_option else [])
         return {"version": r.choice([2, 3]), "options": opts, "statements": sts}
 
